@@ -3,7 +3,7 @@
    correspondence runs under five hashers including an all-colliding one and lookups through a
    borrowed key type). *)
 Require Import LruV.A.OrderA.
-Require Import LruV.A.MonitorsSound LruV.A.MonitorsA.
+Require Import LruV.A.MonitorsSound LruV.A.MonitorsA LruV.A.InvA LruV.B.StepB LruV.B.ReachB.
 
 (* at most one entry per key, in every reachable state *)
 Theorem C04_nodup : forall E VS, 0 < E -> VS <= E -> forall s, Reach E VS s -> NoDup (kids (ents s)).
@@ -60,8 +60,31 @@ Proof. cbv zeta. eexists _, _, _. split; [vm_compute; reflexivity|]. repeat spli
 Theorem C04_monitor_sound : forall E s, Inv E s -> c04_nodup_mon s = true.
 Proof. exact c04_nodup_mon_sound. Qed.
 
+(* at pointer level: a step of the heap-of-nodes model (lookups scan the listed buckets, removals unlink nodes, insertions link a
+   fresh node, rebuilds move every node) from any reachable state returns what the map of the linked nodes says and updates
+   that map as the abstract step does: at most one node per key afterwards, the promoted key maps to the returned / inserted
+   value, every other key that is still present keeps its value, nothing else appears *)
+Theorem C04_pointer_level : forall E VS, 0 < E -> VS <= E -> forall b p oB b' out evs,
+  ReachB E VS b -> wf_op E (absB b) p -> stepB E VS b p oB = Some (b', out, evs) ->
+  stepA E VS fixed (absB b) p (ob oB) = Some (absB b', out, evs) /\
+  NoDup (kids (ents (absB b'))) /\
+  forall q, lookup (absB b') q =
+    match promoted_kv (absB b) p out with
+    | Some (k, w) => if q =? k then Some w else if memb q (kids (ents (absB b'))) then lookup (absB b) q else None
+    | None => if memb q (kids (ents (absB b'))) then lookup (absB b) q else None
+    end.
+Proof.
+  intros E VS HE HV b p oB b' out evs HR Hwf Hstep.
+  destruct (reachB_step E VS HE HV b p oB b' out evs HR Hstep) as (HA & _ & _).
+  destruct (reachB_sound E VS HE HV b HR) as [_ HRa].
+  split; [exact HA|]. split.
+  - apply (C04_nodup E VS HE HV). change (absB b') with (fst (fst (absB b', out, evs))). eapply reach_step; eauto.
+  - exact (C04_step E VS HE HV _ _ _ _ _ _ (reach_inv E VS HE HV _ HRa) Hwf HA).
+Qed.
+
 Print Assumptions C04_nodup.
 Print Assumptions C04_outputs.
 Print Assumptions C04_insert_returns_old.
 Print Assumptions C04_step.
 Print Assumptions C04_monitor_sound.
+Print Assumptions C04_pointer_level.
